@@ -24,7 +24,8 @@ def gen_cases(chk):
     thorough = chk.tier == "thorough"
     cases = []
     shapes = [(64,), (21,), (2000,), (30, 40), (100, 70), (8, 9, 10), (20, 20, 20), (3, 4, 5, 6), (6, 6, 6, 6), (15,), (2, 40),
-              (2, 3, 40), (2, 2, 30), (3, 2, 20), (2, 40, 3), (2, 30), (40, 2)]      # shapes too small for the interval samplers to take a sample
+              (2, 3, 40), (2, 2, 30), (3, 2, 20), (2, 40, 3), (2, 30), (40, 2),      # shapes too small for the interval samplers to take a sample
+              (102,), (1002,), (5002,), (302,)]      # lengths at which a sampling stride (100 by default, 3 and 50 in two configurations) lands exactly on the end of the array
     if thorough:
         shapes += [(70000,), (300, 300), (40, 40, 40), (8, 8, 8, 8)] + [(n,) for n in range(21, 60, 3)]
     cfgs = ["szMode=SZ_BEST_SPEED", "-", "szMode=SZ_BEST_SPEED;withLinearRegression=NO", "withLinearRegression=NO",
